@@ -45,4 +45,25 @@ theorem reach_mono (g g' : Graph) (hsub : ∀ a b, g.edge a b → g'.edge a b) {
   | refl => exact Reach.refl _
   | step _ he ih => exact Reach.step ih (hsub _ _ he)
 
+/-- **the last call on every path from a root into one of the functions `fs` is a guarded call** — for every graph, certificate
+and call table: if the certificate checks and `edgesGuarded` holds, then whatever the path `r →* a → f` (with `f ∈ fs`), the
+call `a → f` is in the table with its dominating test -/
+theorem edgesGuarded_sound (g : Graph) (roots : List Nat) (R : Nat) (qcalls : List QCall) (fs : List Nat)
+    (hc : certifies g roots R = true) (hg : edgesGuarded g R qcalls fs = true)
+    {r a f : Nat} (hr : r ∈ roots) (hra : Reach g r a) (he : g.edge a f) (hf : f ∈ fs) :
+    callsGuarded qcalls a f = true := by
+  simp only [certifies, Bool.and_eq_true, List.all_eq_true] at hc
+  have ha : inSet R a = true := closed_sound g R hc.2 (hc.1 r hr) hra
+  obtain ⟨ts, hm, hb⟩ := he
+  have h1 := List.all_eq_true.1 hg (a, ts) hm
+  simp only [Bool.or_eq_true, Bool.not_eq_eq_eq_not, Bool.not_true, List.all_eq_true] at h1
+  rcases h1 with h1 | h1
+  · rw [ha] at h1
+    cases h1
+  · rcases h1 f hb with h2 | h2
+    · have : fs.contains f = true := by simpa using hf
+      rw [this] at h2
+      cases h2
+    · exact h2
+
 end FxVerif.Proofs.C20Handler
